@@ -88,9 +88,10 @@ def run_case(ctx, g, rng):
             t2 = call(api.ReferenceTuple.from_curie, p + sep + i, sep=sep)
             if t2 != ("ret", (p, i)):
                 violation(["C15"], "ref:print-parse", "custom-separator-not-split-at-first-occurrence", separator=sep, got=t2, **w)
-            r2 = call(api.Reference.from_curie, p + sep + i, sep=sep)
-            if r2[0] != "ret" or (r2[1].prefix, r2[1].identifier) != (p, i):
-                violation(["C15"], "ref:print-parse", "custom-separator-not-split-at-first-occurrence", separator=sep, got=r2, **w)
+            for rcls, extra in ((api.Reference, ()), (api.NamableReference, ("nm",)), (api.NamedReference, ("nm",))):
+                r2 = call(rcls.from_curie, p + sep + i, *extra, sep=sep)
+                if r2[0] != "ret" or (r2[1].prefix, r2[1].identifier) != (p, i) or (extra and r2[1].name != "nm"):
+                    violation(["C15"], "ref:print-parse", "custom-separator-not-split-at-first-occurrence", separator=sep, got=r2, reference_class=rcls.__name__, **w)
         if cls != "tuple":
             C = type(o)
             kw = {} if cls == "ref" else {"name": n or ""} if cls == "named" else {"name": n}
@@ -202,6 +203,9 @@ def run_case(ctx, g, rng):
             ("model_validate-str-ctxdict", lambda: api.Reference.model_validate(f"{p}:1", context={"converter": conv})),
             ("from_reference", lambda: api.NamableReference.from_reference(api.Reference(prefix=p, identifier="1"), converter=conv)),
         ]
+        if "|" not in p:
+            ways.append(("from_curie-custom-sep", lambda: api.Reference.from_curie(f"{p}|1", sep="|", converter=conv)))
+            ways.append(("namable-from_curie-custom-sep", lambda: api.NamableReference.from_curie(f"{p}|1", "nm", sep="|", converter=conv)))
         for name, f in ways:
             evaluated("ref:converter-context")
             o = call(f)
